@@ -174,6 +174,12 @@ def _round(case):
         ok, q3 = c.lib("UQ(R)", lambda: L.UnitQuaternion(TX[:3, :3].copy()))
         if ok:
             c.eq("UQ(R)", m_of(q3), refs.rt(TX[:3, :3], np.zeros(3)), TOL)
+        ok, q4 = c.lib("UQ(T)", lambda: L.UnitQuaternion(TX.copy()))
+        if ok:
+            c.eq("UQ(T)", m_of(q4), refs.rt(TX[:3, :3], np.zeros(3)), TOL)
+        ok, q5 = c.lib("UQ([SO3,SO3])", lambda: L.UnitQuaternion([L.SO3(TX[:3, :3].copy(), check=False), L.SO3(TY[:3, :3].copy(), check=False)]))
+        if ok and c.true("UQ([SO3,SO3])/len", len(q5) == 2, "UnitQuaternion of two SO3 holds %d values" % len(q5)):
+            c.eq("UQ([SO3,SO3])", refs.q2r(np.asarray(q5.data[1], dtype=float)), TY[:3, :3], TOL)
         # q and -q are the same rotation and compare equal
         v = np.asarray(q.vec, dtype=float)
         ok, qn = c.lib("UQ(-q)", lambda: L.UnitQuaternion([float(-x) for x in v]))
